@@ -27,7 +27,16 @@
      ok                     red = wantnode (the exact instant / duration / truth value TimeSem computed), or
                             the form uses a bare integer as timestamp (not strict) and was left unfolded
      Dev_SubMinDurationWraps  T - D with D = MinInt64 ns folded to the exact instant minus 2^64 ns
-     time-fold              anything else                                                      *)
+     time-fold              anything else
+   A record of the zone slice is a time record that also carries [comp, vt, zoff (, plain)]: the valuer given to
+   Reduce was the composition vt (MultiValuer / NowValuer / MapValuer, built by the driver from the tree), wantnode
+   was computed by TimeSem in the zone in force zoff.  The sig of time-fold then names the composition.
+   = / != between two date-like strings (plain present, v0 / v1 observed from the real evaluator) is the first
+   clause's business:
+     ok                       value(Eval(red)) = value(Eval(e)): the comparison of the two strings
+     Dev_TimeStringEquality   only in its exact shape: red is the truth value of the comparison of the two INSTANTS
+                              in the zone in force (= wantnode), and that differs from the evaluator's value
+     time-fold                anything else (e.g. the instants compared in another zone)                      *)
 EXTENDS EvalSem, Json, CSV, IOUtils
 
 VARIABLES l, st
@@ -64,13 +73,29 @@ P64D == FromDec("18446744073709551616")
 Dev_SubMinDurationWraps(r, o) ==
   /\ r.form = "T-D" /\ r.dmin /\ o.red.k = "TimeLiteral" /\ r.wantnode.k = "TimeLiteral"
   /\ o.red.ns = ToDec(Sub(FromDec(r.wantnode.ns), P64D))
+SameNode(a, b) == a.k = b.k /\ a = b                      \* total: = on records of different kinds may not be
+ZoneSig(r) == IF Has(r, "comp") THEN "zone " \o r.comp \o ": " ELSE ""
+\* coarse: the zone slice names composition and form (not the operator), the plain time family form and operator
+FoldSig(r, o) == ZoneSig(r) \o r.form \o (IF Has(r, "comp") THEN "" ELSE " " \o r.op)
+                 \o (IF o.red.k = "BinaryExpr" THEN " not folded" ELSE " wrong " \o o.red.k)
+\* = / != between two date-like strings under a zone
+ZoneStrEqVerdict(r, o) ==
+  IF ~Has(o, "v0") \/ ~Has(o, "v1") THEN V(FALSE, "machinery:no-eval", "")
+  ELSE IF ValEq(o.v1, o.v0) THEN
+       (IF o.red2 # o.red THEN V(FALSE, "not-idempotent", ZoneSig(r) \o r.form)
+        ELSE IF ~ValEq(o.v0, LitVal(r.plain)) THEN V(FALSE, "drift:evalsem", ZoneSig(r) \o r.op)
+        ELSE IF ~SameNode(o.red, r.mred) THEN V(FALSE, "drift:reduce-shape", ZoneSig(r) \o r.form)
+        ELSE OK)
+  ELSE IF SameNode(o.red, r.wantnode) THEN V(FALSE, "Dev_TimeStringEquality", "zone")
+  ELSE V(FALSE, "time-fold", FoldSig(r, o) \o " (string equality)")
 TimeVerdict(r, o) ==
-  IF o.red = r.wantnode \/ (~r.strict /\ o.red.k = "BinaryExpr") THEN
-       (IF o.red2 # o.red THEN V(FALSE, "not-idempotent", r.form)
-        ELSE IF o.red # r.mred THEN V(FALSE, "drift:reduce-shape", r.form)
+  IF Has(r, "plain") THEN ZoneStrEqVerdict(r, o)
+  ELSE IF SameNode(o.red, r.wantnode) \/ (~r.strict /\ o.red.k = "BinaryExpr") THEN
+       (IF o.red2 # o.red THEN V(FALSE, "not-idempotent", ZoneSig(r) \o r.form)
+        ELSE IF o.red # r.mred THEN V(FALSE, "drift:reduce-shape", ZoneSig(r) \o r.form)
         ELSE OK)
   ELSE IF Dev_SubMinDurationWraps(r, o) THEN V(FALSE, "Dev_SubMinDurationWraps", "")
-  ELSE V(FALSE, "time-fold", r.form \o " " \o r.op \o (IF o.red.k = "BinaryExpr" THEN " not folded" ELSE " wrong " \o o.red.k))
+  ELSE V(FALSE, "time-fold", FoldSig(r, o))
 
 Verdict(r) ==
   LET o == r.obs IN
@@ -86,7 +111,7 @@ Verdict(r) ==
 NonTrivial(r) == Has(r.obs, "red") /\ Has(r.obs, "ast0") /\ r.obs.red # r.obs.ast0
 Folded(r) == Has(r.obs, "red") /\ r.obs.red.k \notin {"BinaryExpr", "VarRef", "ParenExpr", "Call"}
 
-Init == l = 1 /\ st = [nt |-> 0, folded |-> 0, sem |-> 0, shape |-> 0]
+Init == l = 1 /\ st = [nt |-> 0, folded |-> 0, sem |-> 0, shape |-> 0, zone |-> 0]
 Step == /\ l <= Len(Trace)
         /\ LET r == Trace[l] v == Verdict(r) IN
              /\ IF v.ok THEN TRUE
@@ -94,11 +119,13 @@ Step == /\ l <= Len(Trace)
              /\ st' = [nt |-> st.nt + (IF NonTrivial(r) THEN 1 ELSE 0),
                        folded |-> st.folded + (IF Folded(r) THEN 1 ELSE 0),
                        sem |-> st.sem + (IF Has(r, "want") THEN 1 ELSE 0),
-                       shape |-> st.shape + (IF Has(r, "mred") THEN 1 ELSE 0)]
+                       shape |-> st.shape + (IF Has(r, "mred") THEN 1 ELSE 0),
+                       zone |-> st.zone + (IF Has(r, "comp") THEN 1 ELSE 0)]
         /\ l' = l + 1
 Finish == /\ l = Len(Trace) + 1
           /\ CSVWrite("%1$s", <<ToJson([judged |-> Len(Trace), nontrivial |-> st.nt, folded_to_literal |-> st.folded,
-                                        compared_with_evalsem |-> st.sem, compared_with_reducemodel |-> st.shape])>>, IOEnv.STATS_FILE)
+                                        compared_with_evalsem |-> st.sem, compared_with_reducemodel |-> st.shape,
+                                        zone_compositions |-> st.zone])>>, IOEnv.STATS_FILE)
           /\ l' = l + 1 /\ UNCHANGED st
 Next == Step \/ Finish
 Spec == Init /\ [][Next]_vars
